@@ -23,6 +23,24 @@ ASSUMPTIONS = _c03.ASSUMPTIONS + [
     "assigned points are kx3 arrays; the (-1,3) shape check of __setattr__ belongs to C20"]
 EXTRA_TARGETS = ["corr/K_C03.vo"]
 
+DEFINITIONAL = ["C04_attribute_protocol_partial", "C04_unknown_tag_errors", "C04_tag_as_records_length",
+                "C04_retag_moves_only_that_tag"]
+BASE_RULE = RULE
+_STATS = {}
+
+
+def _count(key):
+    """what was actually reached in this run (read kinds, refusals, methods); appended to RULE for the evidence"""
+    global RULE
+    _STATS[key] = _STATS.get(key, 0) + 1
+    RULE = BASE_RULE + " | reached in this run: " + ", ".join("%s=%d" % kv for kv in sorted(_STATS.items()))
+
+
+# attributes of the class: a tag with such a name is never converted on an attribute read (known finding)
+CLASS_ATTRIBUTES = ["append_transform", "uniform_scale", "non_uniform_scale", "convert_units", "flip", "translate", "reorient",
+                    "rotate", "tag_as", "do_transform", "_tags_to_indices", "_points_tag", "_points", "_transform",
+                    "__dict__", "__class__", "__doc__", "__module__", "__init__", "__setattr__", "__getattr__"]
+SHADOW_TAGS = ["flip", "translate", "_points", "_points_tag", "_transform", "do_transform"]
 TAGS = ["a", "b", "c", "d", "src"]
 UNKNOWN = ["zz", "nope"]
 
@@ -145,6 +163,8 @@ def gen_cases(rng, n, tier):
             ops, known = [], []
             names = TAGS[:]
             rng.shuffle(names)
+            if rng.random() < 0.08:  # probe: a tag named like an attribute of the class
+                names[rng.randrange(3)] = rng.choice(SHADOW_TAGS)
             for seg in range(rng.randint(2, 4)):
                 nm = names[seg]
                 ops.append({"c": "tag_as", "name": nm})
@@ -204,13 +224,33 @@ def run_impl(c):
 
             if op["c"] == "transform" and op["o"]["op"] == "convert_units":
                 factors[-1] = float(ounce.factor(op["o"]["from"], op["o"]["to"]))
+            # for the evidence: what kind of read / call this is
+            tg = cm.__dict__["_tags_to_indices"]
+            retag = op["c"] == "tag_as" and op["name"] in tg
+            if op["c"] in ("get", "do_transform"):
+                a_, b_ = (cm.__dict__["_points_tag"], op["name"]) if op["c"] == "get" else (op["from"], op["to"])
+                if a_ in tg and b_ in tg:
+                    rk = "forward" if tg[a_] < tg[b_] else ("backward" if tg[a_] > tg[b_] else "same_position")
+                else:
+                    rk = "before_assignment" if a_ is None else "unknown_tag"
+                if op["c"] == "get" and op["name"] in CLASS_ATTRIBUTES:
+                    rk += "/attribute_name"
+                _count("read:%s/%s" % ("attribute" if op["c"] == "get" else "do_transform", rk))
             r = call_impl(one)
+            if op["c"] == "transform":
+                _count("op:%s/%s" % (op["o"]["op"], r["raise"] if isinstance(r, dict) and "raise" in r else "accepted"))
+            elif op["c"] == "tag_as":
+                _count("tag_as/%s" % ("retag" if retag else "new_name"))
+            elif op["c"] == "set":
+                _count("assign/%s" % (r["raise"] if isinstance(r, dict) and "raise" in r else "ok"))
             if isinstance(r, dict) and "raise" in r:
                 results.append(r)
-            elif r is None:
+            elif r is None and not (op["c"] == "get"):
                 results.append({"none": True})
-            else:
+            elif isinstance(r, np.ndarray):
                 results.append({"points": np.asarray(r, dtype=np.float64).tolist(), "shape": list(np.shape(r))})
+            else:  # an attribute read that produced some other object (bound method, dict, None, str, ...)
+                results.append({"other": type(r).__name__})
         pairs = [[np.asarray(f, dtype=np.float64).reshape(-1).tolist(), np.asarray(i, dtype=np.float64).reshape(-1).tolist()]
                  for f, i in cm._transform.transforms]
         return {"results": results, "factors": factors, "lens": lens, "pairs": pairs,
@@ -246,6 +286,8 @@ def coq_case(c, o):
             res.append("(Raise %s)" % r["raise"])
         elif "none" in r:
             res.append("(Ok ONone)")
+        elif "other" in r:
+            res.append("(Ok OOther)")
         else:
             res.append("(Ok (OPts %s))" % coq_list(flv(row) for row in r["points"]))
     return "CScript %s %s" % (ops, coq_list(res))
@@ -262,12 +304,20 @@ def oracle(c, o):
     fw = [_mat(f, 4) for f, _ in o["pairs"]]
     iv = [_mat(i, 4) for _, i in o["pairs"]]
     tags, assigned, n = {}, None, 0
+    mag, kindr = [Fr(1)], ["?"]
+
+    def mmag(m):
+        return max([Fr(1)] + [abs(x) for row in m for x in row])
 
     def expected_read(pts, a, b):
-        """('raise', cls) or ('ok', points)"""
+        """('raise', cls) or ('ok', points); sets mag[0] = product of the magnitudes of the steps traversed"""
         if a not in tags or b not in tags:
             return "raise", "KeyError"
         i, j = tags[a], tags[b]
+        mag[0] = Fr(1)
+        for k in (range(i, j) if i < j else range(j, i)):
+            mag[0] *= mmag(fw[k]) if i < j else mmag(iv[k])
+        kindr[0] = "forward" if i < j else ("backward" if i > j else "same_position")
         out = []
         for p in pts:
             cur = _F(p)
@@ -311,6 +361,8 @@ def oracle(c, o):
                 assigned = (op["name"], op["points"])
             continue
         if k == "get":
+            if assigned is None and op["name"] in CLASS_ATTRIBUTES:
+                continue  # ordinary attribute lookup succeeds, __getattr__ is not consulted
             if assigned is None:
                 if r.get("raise") != "ValueError":
                     return "read before any assignment: %r, ValueError demanded" % r
@@ -320,6 +372,14 @@ def oracle(c, o):
         else:
             what, want = expected_read(op["points"], op["from"], op["to"])
             site = "do_transform %s -> %s" % (op["from"], op["to"])
+        if k == "get" and op["name"] in CLASS_ATTRIBUTES and op["name"] in tags:
+            # the property demands the converted points; Python hands out the attribute instead (known finding)
+            if what == "ok" and ("points" not in r or any(
+                    abs(Fr(a) - b) > TOL * mag[0] * max([1] + [abs(x) for x in w]) for got, w in zip(r["points"], want)
+                    for a, b in zip(got, w))):
+                return "SHADOWED %s: tag %r is also an attribute of the class, the read returned %s instead of the converted points" % (
+                    site, op["name"], r.get("other", "the raw stored points"))
+            continue
         if what == "raise":
             if r.get("raise") != want:
                 return "%s with an unknown tag: %r, %s demanded" % (site, r, want)
@@ -328,12 +388,9 @@ def oracle(c, o):
             return "%s failed: %r" % (site, r)
         if len(r["points"]) != len(want):
             return "%s returned %d rows for %d points" % (site, len(r["points"]), len(want))
-        mag = Fr(1)
-        for m in fw + iv:
-            mag = max([mag] + [abs(x) for row in m for x in row])
         for got, w in zip(r["points"], want):
             pm = max([1] + [abs(x) for x in w])
-            if any(abs(Fr(a) - b) > TOL * mag * mag * pm for a, b in zip(got, w)):
+            if any(abs(Fr(a) - b) > TOL * mag[0] * pm for a, b in zip(got, w)):
                 return ("%s (positions %s) is not the points pushed through exactly the transforms recorded between the "
                         "two tags" % (site, {t: tags[t] for t in tags}))
     if {k: int(v) for k, v in o["tags"].items()} != tags:
@@ -342,4 +399,8 @@ def oracle(c, o):
 
 
 def classify(c, o, failure, disagrees):
+    """known finding tag_shadows_attribute: an attribute read of a tag whose name is an attribute of the class; only
+    that clause, only when model and implementation agree"""
+    if failure and failure.startswith("SHADOWED ") and not disagrees:
+        return "tag_shadows_attribute"
     return None
